@@ -522,7 +522,8 @@ def configs(tier):
     Ws = [1, 2] if tier == "quick" else [1, 2, 3]
     # (rate, min, max): dyadic so that counterexamples replay exactly in float32; ext = ceil(rate*(max-min))
     # the third and later triples have a fractional rate*(max-min) (1.25, 1.75, 2.25, ...)
-    rmm = [(64, 0.0, 0.03125), (64, 0.015625, 0.0625), (64, 0.0, 0.01953125)] if tier == "quick" else \
+    # (32, 1/64, 3/128): rate*min = 0.5 and rate*max = 0.75 -- a lower bound that is not a whole number of sender periods
+    rmm = [(64, 0.0, 0.03125), (64, 0.015625, 0.0625), (64, 0.0, 0.01953125), (32, 0.015625, 0.0234375)] if tier == "quick" else \
         [(64, 0.0, 0.03125), (64, 0.015625, 0.0625), (64, 0.0, 0.01953125), (64, 0.0078125, 0.03515625), (128, 0.0, 0.03125), (32, 0.0, 0.03125), (100, 0.001, 0.0235),
          (32, 0.015625, 0.0234375)]
     for W in Ws:
